@@ -2,7 +2,7 @@
 //
 // Exhaustive (never random) enumeration of by-construction-valid programs from finite grammars
 // (families expr, cfg, mem, glob, tab, bulk, call, pressure, simd, atomic, memorder, cfgmem, tailcall, tcchain, xmod,
-// tblock, opreuse, reexport — see NOTES.md), emitted with wb, executed
+// tblock, opreuse, condfuse, reexport — see NOTES.md), emitted with wb, executed
 // on wazero's optimizing compiler and on its interpreter with every argument vector over boundary
 // alphabets and, for the stateful families, every bounded history of export calls on one instance
 // per engine. Oracle: differential (see NOTES.md). One chunk = one module of up to ~500 functions;
